@@ -279,7 +279,7 @@ func (h *MemHandle) Close() error {
 	h.d.Closes++
 	h.d.mu.Unlock()
 	h.d.Hook.exit("HandleClose", h.Ptr, err)
-	return nil
+	return err // a hook may make closing a read handle fail (the handle still counts as closed)
 }
 
 func (d *MemData) TombstoneFile(ctx context.Context, ptrBytes []byte) error {
